@@ -255,7 +255,8 @@ func isSymlinkToDir(path string, de os.DirEntry) bool {
 func trimPath(path string) string {
 	bytes := stringBytes(path)
 
-	for len(bytes) > 1 && bytes[0] == '.' && (bytes[1] == '/' || bytes[1] == '\\') {
+	// A backslash is an ordinary file name character unless it is the path separator
+	for len(bytes) > 1 && bytes[0] == '.' && (bytes[1] == '/' || bytes[1] == os.PathSeparator) {
 		bytes = bytes[2:]
 	}
 
